@@ -91,6 +91,14 @@ BdElems ==
 RECURSIVE BdSeqs(_)
 BdSeqs(n) == IF n = 0 THEN {<<>>} ELSE { e \o t : e \in BdElems, t \in BdSeqs(n - 1) }
 BuilderFam == [ab \in BdElems \X BdElems |-> { <<LoadOp(<<KOct, KShort, K512>>), BNewOp, BSetKeyOp("HS256", 0)>> \o ab[1] \o ab[2] \o q : q \in BdSeqs(MaxLen - 2) }]
+\* RSA keys of different sizes under one algorithm, smaller first and larger first, through setkey and the callback:
+\* what the process signed before is no part of the configuration
+KR2 == AsymKey("rsa2048a", 1, NONE, NONE)
+KR3 == AsymKey("rsa3072a", 1, NONE, NONE)
+KR4 == AsymKey("rsa4096a", 1, NONE, NONE)
+SizeScripts ==
+  { <<LoadOp(<<KR2, KR3, KR4>>), BNewOp, BSetKeyOp(a, i), G, BSetKeyOp(a, j), G, BSetCbOp(<<CbKey(k), CbAlg(a)>>), G, BSetKeyOp(a, i), G>> :
+      a \in {"RS256", "PS256", "RS512"}, i \in {0, 1, 2}, j \in {0, 1, 2}, k \in {0, 2} }
 BuilderNoKey == { <<LoadOp(<<KOct, KShort, K512>>), BNewOp>> \o q : q \in BdSeqs(IF MaxLen > 3 THEN 3 ELSE MaxLen) }
 
 \* (no definition of the union of the families: TLC evaluates constant definitions eagerly, and the union
@@ -130,7 +138,7 @@ RECURSIVE ClkSeqs(_)
 ClkSeqs(n) == IF n = 0 THEN {<<>>} ELSE { e \o t : e \in ClkElems, t \in ClkSeqs(n - 1) }
 ClkFam == [a \in ClkElems |-> { Pre3 \o a \o q : q \in ClkSeqs(3) }]
 MCSpec == ISpecP(IF Part = "nc" THEN InFam(NcFam)
-                 ELSE (InFam(CheckerFam) \/ InFam(NoKeyFam) \/ InFam(BuilderFam) \/ script \in BuilderNoKey \/ InFam(ClaimFam) \/ InFam(LifeFam) \/ InFam(EcFam) \/ InFam(ClkFam) \/ InFam(MemoFam)))
+                 ELSE (InFam(CheckerFam) \/ InFam(NoKeyFam) \/ InFam(BuilderFam) \/ script \in BuilderNoKey \/ InFam(ClaimFam) \/ InFam(LifeFam) \/ InFam(EcFam) \/ InFam(ClkFam) \/ InFam(MemoFam) \/ script \in SizeScripts))
 
 \* ---- on the specification: the configuration a verdict is computed from is
 \* exactly what the configuration calls made it; verify, generate and
